@@ -6,8 +6,10 @@ import (
 	"encoding/base32"
 	"encoding/base64"
 	"encoding/hex"
+	"regexp"
 	"strings"
 	"testing"
+	"unicode/utf8"
 
 	"github.com/ipfs/go-cid"
 	cbornode "github.com/ipfs/go-ipld-cbor"
@@ -79,12 +81,95 @@ func checkOpaque(tb ev.TB, raw []byte, links []cid.Cid) {
 			}
 		}
 	}
+	checkNoFragments(tb, raw, links)
 	n, err := cbornode.Decode(raw, mh.SHA2_256, -1)
 	if err != nil {
 		tb.Fatalf("stored block is not valid dag-cbor: %v", err)
 	}
 	if len(n.Links()) != 0 {
 		tb.Fatalf("stored block of a link-encrypted entry has %d traversable links", len(n.Links()))
+	}
+}
+
+var (
+	b64StdRun = regexp.MustCompile(`[A-Za-z0-9+/]{16,}={0,2}`)
+	b64URLRun = regexp.MustCompile(`[A-Za-z0-9_-]{16,}={0,2}`)
+	hexRun    = regexp.MustCompile(`[0-9a-fA-F]{20,}`)
+)
+
+// views returns the block itself and whatever its text fields say once their transport encoding (base64 of any
+// flavour, hex) is taken off: field values are found as runs of the encoding's alphabet; a run may carry a few bytes
+// of the surrounding CBOR framing at either end, so every small trim is tried.
+func views(raw []byte) [][]byte {
+	out := [][]byte{raw}
+	// base64 is decoded in groups of four characters from the start: framing bytes in front shift the grouping (all
+	// four shifts are tried), framing bytes behind only add garbage at the end
+	b64 := func(run []byte, enc *base64.Encoding) {
+		run = bytes.TrimRight(run, "=")
+		for lead := 0; lead < 4 && lead+16 <= len(run); lead++ {
+			s := run[lead:]
+			if len(s)%4 == 1 {
+				s = s[:len(s)-1]
+			}
+			if v, err := enc.DecodeString(string(s)); err == nil && len(v) >= 10 {
+				out = append(out, v)
+			}
+		}
+	}
+	for _, run := range b64StdRun.FindAll(raw, -1) {
+		b64(run, base64.RawStdEncoding)
+	}
+	for _, run := range b64URLRun.FindAll(raw, -1) {
+		if bytes.ContainsAny(run, "_-") { // otherwise the run is in the standard alphabet as well
+			b64(run, base64.RawURLEncoding)
+		}
+	}
+	for _, run := range hexRun.FindAll(raw, -1) {
+		for lead := 0; lead < 2; lead++ {
+			s := run[lead:]
+			if v, err := hex.DecodeString(string(s[:len(s)&^1])); err == nil && len(v) >= 10 {
+				out = append(out, v)
+			}
+		}
+	}
+	return out
+}
+
+// checkNoFragments: not even a recognisable part of a link's identifier may be readable from the block - 16
+// characters of any of its textual forms, 10 bytes of its binary forms - neither in the bytes of the block nor in
+// what its text fields carry under base64 / hex.
+func checkNoFragments(tb ev.TB, raw []byte, links []cid.Cid) {
+	const textW, binW = 16, 10
+	frag := map[string]cid.Cid{}
+	add := func(f []byte, w int, l cid.Cid) {
+		for i := 0; i+w <= len(f); i++ {
+			frag[string(f[i:i+w])] = l
+		}
+	}
+	for _, l := range links {
+		for _, f := range cidForms(l) {
+			if utf8.Valid(f) && !bytes.ContainsFunc(f, func(r rune) bool { return r < 0x20 || r > 0x7e }) {
+				add(f, textW, l)
+			} else {
+				add(f, binW, l)
+			}
+		}
+	}
+	if len(frag) == 0 {
+		return
+	}
+	for vi, v := range views(raw) {
+		for _, w := range []int{textW, binW} {
+			for i := 0; i+w <= len(v); i++ {
+				if l, ok := frag[string(v[i:i+w])]; ok {
+					where := "the bytes of the block"
+					if vi > 0 {
+						where = "a text field of the block, once its base64/hex encoding is taken off,"
+					}
+					tb.Fatalf("%s contain(s) a fragment of link %s: %q", where, l, v[i:i+w])
+				}
+			}
+		}
 	}
 }
 
@@ -298,6 +383,6 @@ func runC18(tb ev.TB, p c18Prog) ev.Result {
 
 func TestC18(t *testing.T) {
 	c := ev.Get("C18")
-	c.Rule = "rapid generates entries as in C08 (0-7 predecessors, 0-7 references incl. CIDv0/raw CIDs, binary payloads) written with one of 6 link keys (and written again with generated create options: pinned and/or hashed before signing), plus a small log (1-8 appends with pointer counts 0..16) written with that key. Oracles: the stored bytes contain no binary or textual form (raw CID bytes, multihash, digest, hex, base32/36/58/64 with and without multibase prefix) of any predecessor/reference or of any earlier block of the log and decode to a node without links; a reader holding the same key (separately constructed codec) recovers identical ordered lists, verifies, merges and loads the whole log; readers with no key or another key get an error or empty lists and load at most the entry itself. Non-trivial = entry with >= 1 predecessor and >= 1 reference; distinct = distinct program."
+	c.Rule = "rapid generates entries as in C08 (0-7 predecessors, 0-7 references incl. CIDv0/raw CIDs, binary payloads) written with one of 6 link keys (and written again with generated create options: pinned and/or hashed before signing), plus a small log (1-8 appends with pointer counts 0..16) written with that key. Oracles: the stored bytes contain no binary or textual form (raw CID bytes, multihash, digest, hex, base32/36/58/64 with and without multibase prefix) of any predecessor/reference or of any earlier block of the log - nor a fragment of one (16 characters of a textual form, 10 bytes of a binary form), be it in the bytes of the block or in what its text fields carry once base64 or hex is taken off - and decode to a node without links; a reader holding the same key (separately constructed codec) recovers identical ordered lists, verifies, merges and loads the whole log; readers with no key or another key get an error or empty lists and load at most the entry itself. Non-trivial = entry with >= 1 predecessor and >= 1 reference; distinct = distinct program."
 	ev.Check(t, "C18", genC18, runC18)
 }
